@@ -715,7 +715,12 @@ pub fn generate(seed: u64) -> History {
                 // mostly inside the common envelope; sometimes up to the dense back-end's own limit
                 // (full width for count_ones, one less for the row iterator: see admissible_for)
                 let lim = if r.chance(1, 4) { md.w } else { md.w - md.dense.max(1).min(md.w) };
-                let row = r.usize_below(md.h);
+                // the last and the first row are where an access one word too far leaves the matrix
+                let row = match r.below(10) {
+                    0 | 1 => md.h - 1,
+                    2 => 0,
+                    _ => r.usize_below(md.h),
+                };
                 let a = r.usize_below(lim + 1);
                 let b = match r.below(4) {
                     0 => lim,
@@ -767,6 +772,8 @@ pub fn generate(seed: u64) -> History {
             }
             12 if !md.indexed && r.chance(1, 4) => {
                 let nw = if r.chance(1, 2) { md.w } else { 1 + r.usize_below(fd.max(1)) };
+                // often exactly a whole number of words
+                let nw = if nw != md.w && nw >= 64 && r.chance(1, 3) { nw / 64 * 64 } else { nw };
                 let nh = if r.chance(1, 2) { md.h } else { nw + r.usize_below(md.h - nw.min(md.h) + 1) };
                 let nh = nh.min(md.h);
                 push!(&mut md, &mut ops, Op::Resize { nh, nw });
